@@ -9,8 +9,8 @@ Variable g funs : list (list nat * expr).
 Variable ignored : option nat.
 Variable t : list nat.
 Variable rx : nat -> nat -> option nat.
-Hypothesis Hg : forall r ps b, nth_error g r = Some (ps, b) -> wf g funs ignored t rx ps b.
-Hypothesis Hfuns : forall fid ps b, nth_error funs fid = Some (ps, b) -> wf g funs ignored t rx ps b.
+Hypothesis Hg : forall r ps b, nth_error g r = Some (ps, b) -> wf ps b.
+Hypothesis Hfuns : forall fid ps b, nth_error funs fid = Some (ps, b) -> wf ps b.
 Hypothesis Hign : forall r, ignored = Some r -> exists es, nth_error g r = Some ([], Skip es).
 
 Definition expected_outcome (v : value) (q : nat) (full : bool) : outcome :=
